@@ -981,6 +981,87 @@ func init() {
 	addDoc("C02", "R02p the int type cast parses with the constant base 10.")
 }
 
+// ---------------------------------------------------------------- the navigator's name and value are the node's, whatever its type
+
+// navigatorNameValueTotal: the reference DOM navigator answers LocalName() with the node's Data and Value() with its string
+// value for every node type; the xpath engine asks text nodes for their name too (name(), self::x, parent::x). In the
+// navigator of package idr no return of LocalName / Value is a constant (seed C11-18: "" for text nodes).
+func navigatorNameValueTotal(c *core.Ctx, rule string) {
+	c.SSA()
+	idr := c.Pkg("idr")
+	xp := c.AnyPkg("github.com/antchfx/xpath")
+	if idr == nil || xp == nil {
+		c.Unresolved(rule, "packages idr / antchfx/xpath", "not loaded")
+		return
+	}
+	navI, _ := xp.Types.Scope().Lookup("NodeNavigator").Type().Underlying().(*types.Interface)
+	if navI == nil {
+		c.Unresolved(rule, "xpath.NodeNavigator", "interface not found")
+		return
+	}
+	for _, name := range idr.Types.Scope().Names() {
+		tn, ok := idr.Types.Scope().Lookup(name).(*types.TypeName)
+		if !ok {
+			continue
+		}
+		n, ok := tn.Type().(*types.Named)
+		if !ok || !types.Implements(types.NewPointer(n), navI) {
+			continue
+		}
+		if _, isIface := n.Underlying().(*types.Interface); isIface {
+			continue
+		}
+		for _, m := range []string{"LocalName", "Value"} {
+			f := c.MethodOfPkg(idr.Types, n.Obj().Name(), m)
+			if f == nil || f.Blocks == nil {
+				c.Unresolved(rule, "navigator."+m, "method not found")
+				continue
+			}
+			bad := token.NoPos
+			var leaf func(v ssa.Value, seen map[ssa.Value]bool)
+			leaf = func(v ssa.Value, seen map[ssa.Value]bool) {
+				if seen[v] {
+					return
+				}
+				seen[v] = true
+				switch x := v.(type) {
+				case *ssa.Phi:
+					for _, e := range x.Edges {
+						leaf(e, seen)
+					}
+				case *ssa.Const:
+					bad = x.Pos()
+					if !bad.IsValid() {
+						bad = f.Pos()
+					}
+				}
+			}
+			for _, b := range f.Blocks {
+				for _, in := range b.Instrs {
+					if ret, ok := in.(*ssa.Return); ok && len(ret.Results) == 1 {
+						leaf(ret.Results[0], map[ssa.Value]bool{})
+					}
+				}
+			}
+			c.Check(!bad.IsValid(), rule, core.FuncKey(f)+" answers for every node type", f.Pos(), "no return is a constant",
+				"a return of the navigator's "+m+"() is a constant: for some node type the answer is not the node's own data, while the reference navigator answers with the node's data for every type (name(), self::/parent:: name tests on text nodes select other nodes)")
+		}
+	}
+	c.Floor(rule, 2, "LocalName and Value of the navigator")
+}
+
+func init() {
+	wrapRun("C11", func(c *core.Ctx) {
+		if c.CountRule("R11m") == 0 {
+			navigatorNameValueTotal(c, "R11m")
+		}
+	})
+	addDoc("C11", "R11m no return of the navigator's LocalName() / Value() is a constant (the answer is the node's own data for every node type, as in the reference navigator).")
+	control(Control{ID: "c11-text-nodes-nameless", Prop: "C11", File: "idr/navigator.go",
+		Old: "func (nav *navigator) LocalName() string {\n", New: "func (nav *navigator) LocalName() string {\n\tif nav.cur.Type == TextNode {\n\t\treturn \"\"\n\t}\n",
+		Rule: "R11m", Substr: "LocalName answers", Why: "name tests on text nodes differ from the reference"})
+}
+
 func init() {
 	wrapRun("C18", func(c *core.Ctx) {
 		if c.CountRule("R18h") == 0 {
